@@ -18,7 +18,7 @@
     modelled by hand and tied by the differential only; the result mapping is proved for the client half
     (C03_returns) and for errors (C03_errno_...). *)
 From Coq Require Import ZArith NArith String List Bool.
-From P9V Require Import gen.ConstGen gen.ClientGen Client.Chunk Client.ClientModel Client.ClientProofs Client.Errs Client.Composed Client.HandlerTie.
+From P9V Require Import gen.ConstGen gen.ClientGen Client.Chunk Client.ClientModel Client.ClientProofs Client.ChunkProofs Client.Errs Client.Composed Client.HandlerTie.
 Import ListNotations.
 Open Scope string_scope.
 
@@ -165,3 +165,15 @@ Theorem C03_handler_table_remove : forall fs,
   handler_calls ("tremove", fs) = (gen_handler_calls "tremove" fs ++ [mkbc "Close" (OnFid (fidof (fld "fid" fs))) []])%list /\
   In "call:f.file.Close()" (events "fidRef.DecRef").
 Proof. exact handler_table_remove. Qed.
+
+(** ReadAt/WriteAt: I/O split to fit msize.  For any run of C11's chunk (its requests satisfy [chunks_ok]:
+    C11_write_general / C11_read), the backend sees one WriteAt per request; their data put end to end is the
+    part of p that was offered, each is at the offset where the previous one ended, none exceeds the payload *)
+Theorem C03_io_split : forall cs (p : list N) off0 fid calls n e,
+  (1 <= cs)%nat -> ChunkProofs.chunks_ok cs (List.length p) off0 0 calls n e -> (0 <= off0)%Z ->
+  let bc := writeat_calls fid p calls in
+  concat (map data_of bc) = firstn (fold_right (fun c a => (c_len c + a)%nat) 0%nat calls) p /\
+  Forall (fun b => (List.length (data_of b) <= cs)%nat) bc /\
+  Forall2 (fun b c => off_of b = Z.to_N (off0 + Z.of_nat (c_pos c))) bc calls.
+Proof. exact writeat_split. Qed.
+Print Assumptions C03_io_split.
